@@ -66,6 +66,10 @@ def render_min(f, rng, parent_level=0, right=False):
 
 
 IDENT_POOL = ["a", "b", "p_1", "_", "_x", "1a", "3a", "33", "V1", "Vx", "EX1", "EXa", "AGa", "E", "A", "EU_", "AXE", "x",
+              # case variants of the constants and digit strings other than 0 / 1: legal proposition names
+              "TRUE", "FALSE", "tRue", "fAlse", "TruE", "00", "01", "10",
+              # temporal-operator prefixes followed by an underscore: one name
+              "EF_m", "AX_", "EU_1", "AW_a", "EG_x",
               "in", "inx", "true1", "True_", "\u00e9", "a\u00e9", "\u0434", "\u0663", "a\u2167", "bind", "exists"]
 BLANKS = [" ", "\t", "\n", "\u00a0", "\u2003", "\r"]
 
@@ -115,7 +119,7 @@ def random_strings(rng, count):
 
 
 # ----------------------------------------------------------------------------- trees (C06)
-VALID_IDENTS = ["a", "b1", "_", "p_1", "EXa", "3x", "V_", "x", "xx", "A", "\u00e9"]
+VALID_IDENTS = ["a", "b1", "_", "p_1", "EXa", "3x", "V_", "x", "xx", "A", "\u00e9", "TRUE", "fAlse", "00", "EF_m", "AU_1"]
 
 
 def all_trees(size, atoms, unary, binary, hybrid):
